@@ -47,7 +47,7 @@ def _ids(tier):
     for level, core_only in uprob.plan(tier):
         if level == 3:
             continue
-        for cid, _ps in uprob.instances(level, uprob.BASE_SLOTS, core_only):
+        for cid in uprob.ids(level, uprob.BASE_SLOTS, core_only):
             if level == 2 and tier == "quick":
                 names = [s for s, _ in cid]
                 same_action = any(all(n in v for n in names) for v in effs.values())
